@@ -131,6 +131,10 @@ def run_property(pid, mod, tier, seed, t0):
         "samples": [{"case": c.meta, "first_ops": [l[:120] for l, _ in c.ops[:6]]} for c in cases[:2]],
     }
     cov.update(res.get("extra", {}))
+    if tier == "thorough":
+        lc_ = fw.line_coverage(cases, REPO)
+        if lc_:
+            cov["library_line_coverage_under_this_check"] = lc_
     fw.write_evidence(pid, tier, seed, cov, getattr(mod, "ASSUMPTIONS", []), time.time() - t0, len(violations) + (1 if broken and not violations else 0))
     print(f"property={pid} tier={tier} seed={seed} theorems={audit['discharged']}/{audit['obligations']} "
           f"tie-obligations={audit['generated_theorems']} cases={len(cases)} ops={res['n_ops']} mismatches={len(mism)} "
